@@ -32,7 +32,7 @@ import (
 
 const c33KeyDup = "duplicate-bookkeepers-counted"
 
-const c33Rule = "peer sets of 4..10 zoo keys (P-256; one case in six mixes SM2 / Ed25519 / P-224 keys) stored with UpdateConsensusPeer at one key height; side-chain headers above the key height whose bookkeeper list is built from peers / non-peers / duplicates (60% near-acceptance: L around ceil(2N/3) distinct peers, optionally one peer listed several times or a non-peer inserted; 40% arbitrary) and whose SigData holds valid signatures by listed peers, the same signature repeated, garbage, signatures over another hash, by non-peers or unlisted peers; judged by VerifyHeader directly and through the syncBlockHeader entry point; non-trivial = accepted, or the number of distinct valid peer signatures is within one of ceil(2N/3); distinct = different (peer set, listing, signature pattern)"
+const c33Rule = "peer sets of 4..10 zoo keys (P-256; one case in six mixes SM2 / Ed25519 / P-224 keys) stored with UpdateConsensusPeer at one key height; side-chain headers above the key height whose bookkeeper list is built from peers / non-peers / duplicates (60% near-acceptance: L around ceil(2N/3) distinct peers, optionally one peer listed several times or a non-peer inserted; 40% arbitrary) and whose SigData holds valid signatures by listed peers, the same signature repeated (also with all listed keys distinct: a signature both in its signer's own list slot and in an earlier slot), garbage, signatures over another hash, by non-peers or unlisted peers; judged by VerifyHeader directly and through the syncBlockHeader entry point; non-trivial = accepted, or the number of distinct valid peer signatures is within one of ceil(2N/3); distinct = different (peer set, listing, signature pattern)"
 
 type c33Case struct {
 	n      int
@@ -248,6 +248,7 @@ func genC33(t *rapid.T) c33Case {
 		perm := rapid.Permutation(seqInt(n)).Draw(t, "perm")
 		c.list = append(c.list, perm[:L]...)
 		signers := append([]int{}, c.list...)
+		dupBeforeOwnSlot := false
 		switch rapid.IntRange(0, 12).Draw(t, "twist") {
 		case 0, 1: // replace the tail of the list by repetitions of listed peers (same length)
 			d := rapid.IntRange(1, max(1, L-1)).Draw(t, "distinct")
@@ -271,9 +272,23 @@ func genC33(t *rapid.T) c33Case {
 			}
 		case 5: // one signature missing
 			signers = signers[:len(signers)-1]
+		case 6, 7, 8: // all listed keys distinct; 1-2 peers' signatures sit in their own list slot AND in an earlier slot
+			if L >= 2 {
+				for pairs := rapid.IntRange(1, 2).Draw(t, "dupPairs"); pairs > 0; pairs-- {
+					j := rapid.IntRange(1, L-1).Draw(t, "ownSlot")
+					i := rapid.IntRange(0, j-1).Draw(t, "earlierSlot")
+					if signers[j] == c.list[j] { // slot j still holds its own signer
+						signers[i] = c.list[j]
+					}
+				}
+				dupBeforeOwnSlot = true
+			}
 		}
 		for _, s := range signers {
 			c.sigs = append(c.sigs, c32Sig{"valid", s})
+		}
+		if dupBeforeOwnSlot {
+			return c // neither corrupted nor shuffled: the placement is the point
 		}
 		if rapid.IntRange(0, 6).Draw(t, "corrupt") == 0 && len(c.sigs) > 0 {
 			p := rapid.IntRange(0, len(c.sigs)-1).Draw(t, "corruptPos")
